@@ -7,11 +7,53 @@ VERIF = Path(__file__).resolve().parents[1]
 
 # id -> (technique, level text, level note, design ref)
 CLAIMED = {
+    "C04": (
+        "Lean 4 theorems (const_roundtrip for every width/value in the three solver syntaxes by induction on digits, valid_means_no_abstraction, abstract_never_valid, printed_is_model) over an executable model of solve.py's model parsing and labelling; tied to the code by an extractor for the regex/needle/dispatch tables and a differential run of the real parser, from_result, is_model_valid and the real counterexample callback on real yices/z3 outputs and synthetic ones",
+        "Proof for the parsing/labelling half (all widths, all values); reproducibility of valid counterexamples on the reference EVM is exercised by the C01/C03 engines, not proved here",
+        "Trusted: Lean kernel, the hand model Model.ModelParse (correspondence-validated), the regex transcription (RegexBT), solver binaries as producers of test outputs. End-to-end replay of counterexamples inherits the C01 stage coverage",
+        "DESIGN.md §4 C04",
+    ),
     "C06": (
         "Lean 4 theorems over an executable model of bitvec.py / the word-instruction cases of SEVM.run (op_exact: every instruction, every operand representation, every sound simplifier, every standard interpretation), model tied to the code by a differential run of one-instruction SEVM executions against the Lean model and the Lean EVM spec",
-        "Proof on the model for all 2^256 operand values and all representation combinations; the tie to the code is a correspondence run (about 10^4 cases per quick run, all 25 instructions x 9 operand representations, boundary + harvested-literal + random values, two valuations per symbolic case) plus probes for promptness and for the shared TRUE/FALSE singletons",
+        "Proof on the model for all 2^256 operand values and all representation combinations (16 theorems: op_exact for all 25 instructions, abstraction_axioms_valid, fast_eq_slow, bool coercions, exp_by_const, promptness bound); the tie to the code is a correspondence run (about 10^4 cases per quick run, all 25 instructions x 9 operand representations, boundary + harvested-literal + random values, two valuations per symbolic case) plus probes for promptness and for the shared TRUE/FALSE singletons",
         "Trusted: Lean kernel (axioms propext, Classical.choice, Quot.sound), Spec.Word as the meaning of the EVM, z3 simplify (hypothesis SimpSound), the hand-written model Model.BitVecOps (validated by correspondence, not generated), harness and z3-AST evaluator. Symbolic SIGNEXTEND size is rejected by design (NotConcreteError) and outside the claim; abstraction=None branches are not reached from SEVM.run",
         "DESIGN.md §4 C06",
+    ),
+    "C11": (
+        "Lean 4 theorems (none_dropped incl. sliced parents and the cached form, named_equisat, refine_exact, refine_untouched, refine_covers with exp stated as the uncovered symbol) over a model of Path.to_smt2 / dump / refine whose regexes, templates and abstraction table are regenerated from the source each run; differential run re-parsing the real to_smt2/dump/refine output with z3 against And(path.conditions)",
+        "Proof for the script transformations for arbitrary condition sets and interpretations; the text-level refine theorem is proved for the 9 declared abstraction symbols (all that sevm.py declares), not for arbitrary digit strings",
+        "Trusted: Lean kernel, z3's printer/parser (sexpr/parse_smt2_string), the SMT-LIB script semantics written in Model.Query, extractor solve_tables (fails closed on any unexpected shape incl. the literal bodies of to_smt2 and check_unsat_cores)",
+        "DESIGN.md §4 C11",
+    ),
+    "C12": (
+        "Lean 4 theorems by structural induction on ABI type trees (encode_general_all/encode_general/create_general: every well-typed value whose dynamic lengths are among the candidates is an instance of the symbolic calldata and decodes back; abi_dec_enc; size_field_ok; leaves_distinct; unsupported_rejected) over a model of calldata.py; differential run of the real mk_calldata against the model (item by item) and against the Lean ABI spec (decode of instantiated calldata), plus candidate branching on the real SEVM",
+        "Full-strength proof on the model (no nesting/arity bound); one recorded exception proved as a negation (T[0] of dynamic T, not expressible in Solidity); calldataload candidate branching is covered by the harness on the real SEVM only",
+        "Trusted: Lean kernel, Spec.Abi as the meaning of the Solidity ABI, the hand model Model.Calldata (correspondence-validated), distinctness of (name, uid, counter) naming triples is an explicit hypothesis of leaves_distinct_names",
+        "DESIGN.md §4 C12",
+    ),
+    "C16": (
+        "Lean 4 theorems (cache_sound_if_stable / cache_transparent_if_stable by induction on query histories under IdStable; cache_unsound_recycled_cex proving the unconditional statement false) over a model of the unsat-core cache; monitor of IdStable on real runs + directed allocator-driving search that reproduces a flipped verdict on the real code (recorded known finding)",
+        "Conditional proof: the cache is transparent iff assertion ids are stable; the hypothesis is not guaranteed by the code (z3 AST ids are recycled) and the check demonstrates the flip on the real solve_end_to_end; core_parse_ok is proved on the three solver output shapes only (partial)",
+        "Trusted: Lean kernel, Model.Cache (hand model, correspondence-validated against parse_unsat_core / check_unsat_cores / solve_end_to_end), real yices/z3 as core producers",
+        "DESIGN.md §4 C16",
+    ),
+    "C17": (
+        "Lean 4 theorems over a labelled transition system of PopenFuture/PopenExecutor (result_once, timeout_is_unknown, after_shutdown_quiescent and after_join_quiescent for the repaired code, with decide-proved counterexample schedules for each unrepaired site), for any number of jobs and all interleavings by induction on traces; tied to the code by deterministic schedule replay of the REAL classes under a cooperative scheduler substituted into halmos.processes, plus real-subprocess runs",
+        "Proof over the model for all schedules; correspondence compares enabled-step sets and final states on thousands of enumerated schedules (bounded preemptions) and random walks; real OS process/pipe/signal behaviour is not modelled (partial by nature); liveness is enabledness + rank decrease under fair scheduling",
+        "Trusted: Lean kernel, Model.Popen (hand model; variant detected structurally and by replaying the counterexample schedules), the cooperative scheduler harness, CPython threading primitives, psutil",
+        "DESIGN.md §4 C17",
+    ),
+    "C18": (
+        "Lean 4 theorems (precedence for all layer stacks against an independent argmax spec, annotation_scope, solver_command_rule, unbounded round trips for every structured option type incl. timeout_roundtrip on exact decimals, malformed_rejected) over a model of config.py with the source order / field / action tables regenerated from the source each run; differential run on the real Config, parsers, TOML/natspec/devdoc loaders and the run_tests derivation, plus an exhaustive 10^5-point millisecond grid on real floats",
+        "Full proof on the model; binary float rounding inside parse/unparse is covered by the exhaustive grid only; argparse/shlex are modelled for whitespace-separated long options",
+        "Trusted: Lean kernel, Model.Config (hand model, correspondence-validated), CPython's int()/float()/str.isspace tables (compared with the running CPython over all code points each run)",
+        "DESIGN.md §4 C18",
+    ),
+    "C19": (
+        "Lean 4 theorems for all byte strings, all chunkings / concrete-prefix splits and all pcs (jumpdests_eq, jumpdests_sweep, decode_eq, decode_past_end, slice_eq_read, getitem_eq, never_jumps_into_push_data, accepts_every_jumpdest, decode_cache_transparent) over a model of contract.py with opcode constants and insn_len regenerated from the source; differential run exhaustive over a decoding-class-preserving alphabet with every split, random code up to 4 KiB and real SEVM jump programs",
+        "Full proof on the model; one recorded exception with a proved negation (a numeral byte inside a symbolic chunk ends the sweep)",
+        "Trusted: Lean kernel, Spec.Code (Yellow Paper 9.4.3), Model.Contract (hand model, correspondence-validated), extractor opcodes",
+        "DESIGN.md §4 C19",
     ),
 }
 
